@@ -68,7 +68,9 @@ Check ==
                 /\ (n >= 1 => IsZeroVec(MatVec(DerivMat(t, n, 1), [j \in 1 .. m |-> One])))
                 /\ (n >= 2 => IsZeroVec(MatVec(DerivMat(t, n, 2), Greville(t, n))))
             PenOK == \A p \in 0 .. n : LET P == PenaltyMat(t, n, p) IN \A i \in 1 .. m : RSign(P[i][i]) >= 0 /\ \A j \in 1 .. m : P[i][j] = P[j][i]
+            DividedDiffsOK == \A p \in 0 .. n : \A j \in 0 .. m - p - 1 : DividedDiffsRowOK(t, n, p, j)
         IN  /\ Assert(DerivAgrees, <<"DerivAgrees", ax>>)
+            /\ Assert(DividedDiffsOK, <<"divided_diffs of glam.c differs from the derivative-coefficient matrix", ax>>)
             /\ Assert(PolyNullSpace, <<"PolyNullSpace", ax>>)
             /\ Assert(PenOK, <<"PenaltySymmetric", ax>>)
             /\ EmitJson => PrintT(ToJson([kind |-> "axis", id |-> ax, n |-> n, t |-> t, xs |-> [k \in 1 .. Len(xs) |-> RatJ(xs[k])],
